@@ -34,7 +34,9 @@ NAMES = ['a', 'b', 'ab', 'ba', 'abc', 'a.c', 'xa', 'c', 'A', 'a\nb', 'cb',
          'xb', 'bc', 'bb', 'aa', 'Bc']
 
 T_PATS = ['q1', 'q1 ', '^test_q1 ', 'q0|q10', '^test_q0|q2', 'T_q2', 'nomatch',
-          r'\.test_q1$|q0 ', '', '(?i)TEST_Q2 ', r'(q1) .*\1\)']
+          r'\.test_q1$|q0 ', '', '(?i)TEST_Q2 ', r'(q1) .*\1\)',
+          # patterns that look at the tail of the id: class, method, ')'
+          r'T_q1\.test_q1\)$', r'\(vtw\.tests\.T_q2\)', r'T_q10\)', r'\.test_q\d+\)$']
 L_PATS = ['A', 'A$', 'AB', r'tests\.A$|B$', '^vtw', 'B$', 'nomatch', 'UnitTests',
           '^zope|AB$']
 
